@@ -21,6 +21,16 @@ func hC13Module() (*Module, *Func) {
 	m := NewModule()
 	m.NewGlobalDef(hLetter("g"), constant.NewInt(types.I32, 1))
 	m.NewGlobalDef("", constant.NewInt(types.I32, 2))
+	// types that no earlier print in the process has seen (an uncommon integer
+	// width, an array and a vector of it, a named struct, an address space):
+	// whatever the printers memoise for them is shared state
+	odd := types.NewInt(37)
+	m.NewGlobalDef("odd", constant.NewInt(odd, 5))
+	m.NewGlobalDef("arr", constant.NewZeroInitializer(types.NewArray(3, odd)))
+	st := m.NewTypeDef("S", types.NewStruct(odd, types.NewVector(2, odd)))
+	sp := types.NewPointer(st)
+	sp.AddrSpace = 3
+	m.NewGlobalDef("ptr", constant.NewNull(sp))
 	callee := m.NewFunc("callee", types.I32)
 	f := m.NewFunc(hLetter("f"), types.I32, NewParam("", types.I32))
 	b := f.NewBlock("")
